@@ -257,3 +257,24 @@ def run(cx):
     A.a_grade(cx, 'A-GRADE', 10, levels=('Fp12',))
     # tangent / chord line evaluation: new point and line coefficients are weighted-homogeneous
     A.a_lines(cx, 'A-LINE')
+
+
+_run_pow = run
+
+
+def run(cx):
+    from .. import rules_s as S
+    _run_pow(cx)
+    # I-POW: the square-and-multiply loops cannot skip a limb, a bit or a squaring
+    for q in ('<impl fields::fp12::Fp12>::pow',):
+        S.square_multiply(cx, 'I-POW', q)
+
+
+_run_poly = run
+
+
+def run(cx):
+    from .. import rules_poly as RPL
+    _run_poly(cx)
+    # A-POLY: the tower arithmetic under the pairing equals its defining formulas
+    RPL.a_poly(cx, 'A-POLY', 39)
